@@ -27,7 +27,23 @@ def anceq(d, p):
     return d == p or anc(d, p)
 
 
+ALIASES = []   # (link name, target) of the Symlink calls of the program being classified
+
+
+def _alias(names):
+    out = list(names)
+    for n in names:
+        for new, target in ALIASES:
+            if n.startswith(new + "/"):
+                out += prefixes(target + n[len(new):])
+    return out
+
+
 def new_names(c):
+    return _alias(_new_names(c))
+
+
+def _new_names(c):
     op, a = c["op"], c["args"]
     if op in ("mkdir", "create"):
         return [a[0]]
@@ -86,8 +102,10 @@ def p_create_in_detached(a, b, strict=True):
 
 
 def p_stale_source(a, b, strict=True):
-    """A works on an entry found by its unlocked walk that B removes, replaces or moves away"""
-    if a["op"] not in ("rename", "link", "remove", "removeall"):
+    """A = Rename or Link: it works on the entry found by its unlocked look-up / walk that B removes, replaces or
+    moves away meanwhile.  Remove and RemoveAll are NOT stale actors: both file systems re-check the name under
+    the lock(s) they delete under, so two concurrent removals of one name must exclude each other."""
+    if a["op"] not in ("rename", "link"):
         return False
     return any(anceq(d, s) for s in sources(a) for d in deleted(b)) or \
         any(s == n for s in sources(a) for n in new_names(b))
@@ -100,28 +118,51 @@ NONLIN_CLASSES = [
 ]
 
 
+def overlap(a, b):
+    """False when one call returned before the other got its first lock (they cannot have raced)."""
+    if "inv" not in a or "inv" not in b:
+        return True
+
+    def before(x, y):
+        return x["resp"] >= 0 and y["inv"] >= 0 and x["resp"] < y["inv"]
+    return not before(a, b) and not before(b, a)
+
+
 def cross_pairs(calls):
+    """ordered pairs of calls of different threads that overlapped in time"""
     for i, j in itertools.permutations(range(len(calls)), 2):
         for a in calls[i]:
             for b in calls[j]:
-                yield a, b
+                if overlap(a, b):
+                    yield a, b
+
+
+# same-name pairs that MUST exclude each other on both file systems (no deviation on the unchanged tree in any
+# explored schedule): never attributed to a known finding, whatever the predicates below say
+EXCLUSIVE_PAIRS = {("create", "create"), ("create", "mkdir"), ("mkdir", "mkdir"), ("mkdir", "mkdirall"), ("mkdirall", "mkdirall"),
+                   ("remove", "remove"), ("remove", "removeall"), ("removeall", "removeall")}
+
+
+def must_be_exclusive(calls):
+    flat = [c for t in calls for c in t]
+    return len(flat) == 2 and len(calls) == 2 and tuple(sorted(c["op"] for c in flat)) in EXCLUSIVE_PAIRS and \
+        flat[0]["args"][0] == flat[1]["args"][0]
 
 
 def classify(f):
     """Returns the id of the known-finding class of finding f (a dict of conc.findings.jsonl) or None."""
     fs, kind, calls = f["fs"], f["kind"], f["calls"]
+    ALIASES[:] = [(c["args"][1], c["args"][0]) for t in calls for c in t if c["op"] == "symlink"]
     two = sum(len(t) for t in calls) == 2
     if kind == "deadlock":
         return classify_deadlock(f)
     if kind == "panic":
         return None     # no panic under interleaving is a known finding any more (OrefaFS Rename: fixed in /repo)
     if kind == "tempdup":
-        # the same temp name in two incarnations of a directory that was removed / renamed meanwhile
-        for a, b in cross_pairs(calls):
-            if a["op"] in ("createtemp", "mkdirtemp") and p_create_in_detached(a, b, strict=False):
-                return "C06-%s-create-in-detached-dir" % fs
-        return None
+        return None     # one temp name handed to two callers while the directory stayed in place: never a known finding
     if kind != "nonlin":
+        return None
+    if must_be_exclusive(calls):
         return None
     for name, pred in NONLIN_CLASSES:
         for a, b in cross_pairs(calls):
